@@ -153,7 +153,19 @@ def xret (total : Nat) (c : Cfg) : Nat :=
 def obsStr (total : Nat) (c : Cfg) : String :=
   s!"S={showSt c.state};X={b01 c.execv};P={c.pubs};D={b01 c.execvDone};M={b01 (c.mpc == .done)};R={xret total c};E={b01 (c.xpc == .osExit)}"
 
+def St.code : St → Nat
+  | .stopped => 0 | .starting => 1 | .started => 2 | .stopping => 3 | .exiting => 4
+
+def MPc.code : MPc → Nat
+  | .b10 => 0 | .b11 => 1 | .w2 => 2 | .w4 => 3 | .w5 => 4 | .w6 => 5 | .tail => 6 | .done => 7
+
+def XPc.code : XPc → Nat
+  | .s2 => 0 | .s3 => 1 | .s4 => 2 | .s5 => 3 | .s6 => 4 | .a2 => 5 | .a4 => 6 | .a5 => 7 | .a6 => 8
+  | .a7 => 9 | .a8 => 10 | .a9 => 11 | .g2 => 12 | .g3 => 13 | .r7 => 14 | .r8 => 15 | .e2 => 16
+  | .e3 => 17 | .e4 => 18 | .e5 => 19 | .e7 => 20 | .e8 => 21 | .e9 => 22 | .e12 => 23 | .e20 => 24
+  | .done => 25 | .osExit => 26
+
 def keyStr (c : Cfg) : String :=
-  s!"{repr c.state}{b01 c.execv}{repr c.mpc}{repr c.xpc}{b01 c.inExit}{repr c.exitstate}|{c.todo.length}|{c.pubs}{b01 c.exited}{b01 c.execvDone}{b01 c.sawExiting}"
+  s!"{c.state.code}{b01 c.execv}.{c.mpc.code}.{c.xpc.code}.{b01 c.inExit}{c.exitstate.code}|{c.todo.length}|{c.pubs}{b01 c.exited}{b01 c.execvDone}{b01 c.sawExiting}"
 
 end CpModel.BlockWait
